@@ -40,6 +40,16 @@ def _template(tspec):
         st = (t[1] - t[0]) * k if len(t) > 1 else 1.0
         sf = (f[1] - f[0]) * k if len(f) > 1 else 1.0
         coords = {"time": xr.Variable("time", t, attrs={"step": float(st), "units": "s"}), "frequency": xr.Variable("frequency", f, attrs={"step": float(sf), "units": "Hz"})}
+    if tspec.get("range_attrs"):
+        # coordinates annotated with their range (start / end / stop, as the dimension helpers' documentation describes);
+        # "stale" = the annotation describes the axis before it was cropped.  The coordinates are what counts.
+        def annotate(name, c):
+            v = coords[name] if isinstance(coords[name], xr.Variable) else xr.Variable(name, c)
+            st_ = float(c[1] - c[0]) if len(c) > 1 else 1.0
+            lo, hi = (float(c[0]), float(c[-1]) + st_) if tspec["range_attrs"] == "consistent" else (float(c[0]) - 5 * st_, float(c[-1]) + 3 * st_)
+            v.attrs.update(start=lo, end=hi, stop=hi, min=lo, max=hi)
+            return v
+        coords = {"time": annotate("time", t), "frequency": annotate("frequency", f)}
     if "channel" in dims:
         coords["channel"] = [0, 1]
     arr = xr.DataArray(data, dims=dims, coords=coords)
@@ -337,6 +347,8 @@ def run(ctx):
         tspec = {"time": t, "freq": f, "order": order, "content_seed": rng.getrandbits(20), "nan_content": rng.random() < 0.1}
         if rng.random() < 0.3:
             tspec["step_attrs"] = rng.choice(["consistent", "stale"])
+        if rng.random() < 0.3:
+            tspec["range_attrs"] = rng.choice(["consistent", "stale"])
         if rng.random() < 0.15:
             tspec["names"] = rng.choice([["t", "f"], ["x", "y"], ["frequency", "time"]])   # the last one swaps the usual names on purpose
         ng = rng.choice([1, 1, 2, 3, 3, 5])
